@@ -662,7 +662,7 @@ def _e2e_task(args):
         for rank in (True, False):
             k0 = (ci // 3 + rank) % 4
             if thorough and single:
-                runs = [(o, k0) for o in outputs] + [("pandas", k) for k in range(4) if k != k0]
+                runs = [(o, k0) for o in outputs] + [("pandas", (k0 + 1) % 4)]  # pandas output always meets a non-default index
             else:
                 runs = [(outputs[(ci + rank) % 3], k0)]
             for output, kind in runs:
@@ -700,7 +700,7 @@ def _run_e2e(ctx):
              "(each formula has a term with >= 1 data factor)",
         exhaustive=False,
         bound="frames: rows 1..6 with row labels default / shuffled 0..n-1 / subset of a larger range / strings (rotating; "
-              "thorough: pandas output under all four), 0-3 categoricals (1..4 levels; category/object/str dtype; also written "
+              "thorough single-term cases: all outputs under one kind + pandas output under a second), 0-3 categoricals (1..4 levels; category/object/str dtype; also written "
               "C(A), C(A, levels=[reversed]), C(A, contr.SAS), C(A, contr.sum)), 0-3 numerics (+ I(a * 2), "
               "np.log(b), I(a + b), I(b ** 2)); formulas: every single term of <= 3 ordered factors from a pool of <= 5 (quick) / 6 (thorough), "
               "x {no scale, 2.5:} x intercept on/off (exhaustive), + seeded 2-4 term formulas (100 quick / 600 thorough per frame) with scales "
